@@ -39,6 +39,9 @@ func init() {
 		"(*bufio.Scanner).Text":     libScannerText,
 		"(*bufio.Scanner).Err":      libScannerErr,
 		"strings.Fields":            libFields,
+		"strings.Split":             libSplit,
+		"encoding/csv.NewReader":    libNewCSVReader,
+		"(*encoding/csv.Reader).Read": libCSVRead,
 		"sort.Slice":            libSortSlice,
 	}
 }
@@ -392,4 +395,56 @@ func libFields(x *Exec, n *ast.CallExpr, recv *Val, recvExpr ast.Expr, st *State
 	ln := app("gs.nfields", v.T)
 	c.trusted["strings.Fields: uninterpreted (number of fields >= 0, field contents a function of the argument)"] = true
 	return Val{T: c.define("sl", sortSlice, app("mkSlice", ref, "0", ln, ln)), Ty: types.NewSlice(tString)}
+}
+
+
+// strings.Split(s, sep) with a non-empty separator: a fresh slice of at least one string, contents a function of (s, sep)
+func libSplit(x *Exec, n *ast.CallExpr, recv *Val, recvExpr ast.Expr, st *State, env *Env) Val {
+	c := x.c
+	v := x.eval(n.Args[0], st, env)
+	sep := x.eval(n.Args[1], st, env)
+	c.declare("gs.nsplit", "(declare-fun gs.nsplit (Str Str) Int)")
+	c.declare("gs.split", "(declare-fun gs.split (Str Str) (Array Int Str))")
+	c.declare("gs.nsplit.ax", "(assert (forall ((s Str) (p Str)) (! (>= (gs.nsplit s p) 1) :pattern ((gs.nsplit s p)))))")
+	ref := x.allocArray(st, sortStr, app("gs.split", v.T, sep.T))
+	ln := app("gs.nsplit", v.T, sep.T)
+	c.trusted["strings.Split (non-empty separator): uninterpreted; at least one element; contents a function of the arguments"] = true
+	return Val{T: c.define("sl", sortSlice, app("mkSlice", ref, "0", ln, ln)), Ty: types.NewSlice(tString)}
+}
+
+// encoding/csv.Reader: a finite ghost sequence of records, each a []string with the same number of fields as the first
+// (FieldsPerRecord = 0), then io.EOF; any Read may instead fail with a parse error.
+func libNewCSVReader(x *Exec, n *ast.CallExpr, recv *Val, recvExpr ast.Expr, st *State, env *Env) Val {
+	c := x.c
+	h := c.freshConst("csvreader", "Int")
+	arr := c.freshConst("csvrows", "(Array Int Slice)")
+	cnt := c.freshConst("csvrows.n", "Int")
+	c.assume("true", app(">=", cnt, "0"))
+	st.gh["scan:"+h] = Val{Seq: &SeqVal{Arr: arr, N: cnt, Elem: types.NewSlice(tString), ESort: sortSlice}}
+	st.gh["scanpos:"+h] = Val{T: "0", Ty: tInt}
+	x.heap(st, sortStr)
+	c.assumes = append(c.assumes, fmt.Sprintf("(forall ((j Int)) (! (and (< 0 (s.ref (select %s j))) (< (s.ref (select %s j)) %s) (<= 0 (s.off (select %s j))) (<= 0 (s.len (select %s j))) (<= (s.len (select %s j)) (s.cap (select %s j))) (= (s.len (select %s j)) (s.len (select %s 0)))) :pattern ((select %s j))))", arr, arr, st.alloc, arr, arr, arr, arr, arr, arr, arr))
+	c.trusted["encoding/csv.Reader: yields a finite sequence of records with equal numbers of fields, then io.EOF; any Read may fail with a parse error"] = true
+	return Val{T: h, Ty: env.info.TypeOf(n)}
+}
+
+func libCSVRead(x *Exec, n *ast.CallExpr, recv *Val, recvExpr ast.Expr, st *State, env *Env) Val {
+	c := x.c
+	h, seq, pos := scannerState(x, recv, st)
+	more := c.define("more", "Bool", app("<", pos.T, seq.Seq.N))
+	bad := c.freshConst("csvbad", "Bool")
+	perr := c.freshConst("csverr", sortErr)
+	eof := x.pkgVar("io", "EOF", tError)
+	c.assume("true", and(not(eq(perr, "err.nil")), not(eq(perr, eof)), not(eq(eof, "err.nil"))))
+	st.gh["scanpos:"+h] = Val{T: c.define("scanpos", "Int", ite(and(more, not(bad)), add(pos.T, "1"), pos.T)), Ty: tInt}
+	rec := Val{T: c.define("record", sortSlice, ite(and(more, not(bad)), app("select", seq.Seq.Arr, pos.T), "(mkSlice 0 0 0 0)")), Ty: types.NewSlice(tString)}
+	x.assumeWFAtom(st, rec)
+	err := Val{T: c.define("err", sortErr, ite(more, ite(bad, perr, "err.nil"), eof)), Ty: tError}
+	return Val{Tuple: []Val{rec, err}}
+}
+
+func (x *Exec) pkgVar(pkg, name string, ty types.Type) string {
+	n := "glob_" + pkg + "_" + name
+	x.c.declare(n, fmt.Sprintf("(declare-fun %s () %s)", n, x.c.sortOf(ty)))
+	return n
 }
